@@ -20,6 +20,7 @@ type Session struct {
 	Rng  *hlib.Rng
 	Ops  int
 	Dead bool // a timeout happened: goroutines of this ring may be stuck, stop using it
+	hung bool // a dump did not return: some node is wedged
 }
 
 func NewSession(run *hlib.Run, rng *hlib.Rng) *Session {
@@ -44,13 +45,30 @@ func (s *Session) Do(toks ...string) string {
 	if res == "timeout" {
 		s.Dead = true
 	}
-	s.Run.Emit(strings.Join(toks, " "), res+" | "+s.R.Dump())
+	s.Run.Emit(strings.Join(toks, " "), res+" | "+s.SafeDump())
 	s.Run.Count("op:" + toks[0])
 	if strings.HasPrefix(res, "err:") {
 		s.Run.Count("result:" + res)
 	}
 	s.Ops++
 	return res
+}
+
+// SafeDump: the dump takes the nodes' own locks; a node wedged by an operation must not wedge the harness.
+// After 5 s the session is marked dead and "hung" is reported instead.
+func (s *Session) SafeDump() string {
+	if s.Dead && s.hung {
+		return "hung"
+	}
+	dc := make(chan string, 1)
+	go func() { dc <- s.R.Dump() }()
+	select {
+	case d := <-dc:
+		return d
+	case <-time.After(5 * time.Second):
+		s.Dead, s.hung = true, true
+		return "hung"
+	}
 }
 
 func U(x uint64) string { return strconv.FormatUint(x, 10) }
@@ -127,7 +145,10 @@ func (s *Session) BuildRing(ids []uint64) (members []uint64) {
 // Repair runs full repair rounds (checkpred, stabilize, fixfinger on every member in seeded order)
 // until the dump no longer changes or maxRounds is reached. Returns the number of rounds run.
 func (s *Session) Repair(members []uint64, maxRounds int) int {
-	prev := s.R.Dump()
+	if s.Dead {
+		return 0
+	}
+	prev := s.SafeDump()
 	for round := 1; round <= maxRounds; round++ {
 		order := append([]uint64{}, members...)
 		for i := len(order) - 1; i > 0; i-- {
@@ -139,8 +160,8 @@ func (s *Session) Repair(members []uint64, maxRounds int) int {
 			s.Do("stabilize", U(id))
 			s.Do("fixfinger", U(id))
 		}
-		cur := s.R.Dump()
-		if cur == prev {
+		cur := s.SafeDump()
+		if cur == prev || s.Dead {
 			return round
 		}
 		prev = cur
@@ -230,7 +251,7 @@ func (s *Session) Quiet() {
 	if s.Dead {
 		return
 	}
-	s.Run.Emit("quiet", "ok | "+s.R.Dump())
+	s.Run.Emit("quiet", "ok | "+s.SafeDump())
 }
 
 // Churn runs one churn history: KV operations through random entry nodes interleaved with
